@@ -53,6 +53,9 @@ func (p *c02) Init(w *lib.Worker) (err error) {
 
 func (p *c02) Chunk(string) int { return 20 }
 
+// MaxStack: as C07 (same document source).
+func (p *c02) MaxStack() int { return 32 << 20 }
+
 func explainSwagger(raw any) []string {
 	n := len(model.EmuNames)
 	masks := []int{}
